@@ -397,6 +397,9 @@ impl Expression for ExpressionAssign {
                             | Data::Source(_) => {
                                 if v.is_readonly() {
                                     Err(format!("Can't set read-only {v}"))
+                                } else if Arc::ptr_eq(&v.arc, &right_arc.arc) {
+                                    // Assignment of a value to itself, locking it twice would block forever.
+                                    Ok(v.clone())
                                 } else {
                                     right_guard
                                         .deref()
@@ -451,11 +454,14 @@ impl Expression for ExpressionAssignUndefined {
             match left_result {
                 Err(err) => Err(err),
                 Ok(left_value) => {
-                    right_result
-                        .lock()
-                        .unwrap()
-                        .deref()
-                        .clone_into(left_value.lock().unwrap().deref_mut());
+                    // Assignment of a value to itself, locking it twice would block forever.
+                    if !Arc::ptr_eq(&left_value.arc, &right_result.arc) {
+                        right_result
+                            .lock()
+                            .unwrap()
+                            .deref()
+                            .clone_into(left_value.lock().unwrap().deref_mut());
+                    }
                     Ok(left_value.clone())
                 }
             }
